@@ -22,7 +22,8 @@ func checkC11(w *World, tier string) *Report {
 		"R11.1 (SSA path rule, all acyclic paths of saveKey and saveChange) refused means unmodified: no store, map update or mutating recorder call lies on a path that ends in a return with a possibly non-nil error (an error that is the result of a callee whose every return yields a nil error is infeasible and skipped); " +
 		"R11.2 (E3) every narrowing conversion of an offset (uint64 -> uint8) in saveKey, saveChange and Slot is entailed lossless by the dominating range check, so offsets beyond 31 are refused rather than aliased onto another offset; " +
 		"R11.3 (SSA path rule on AddChild, 'what you index is what you return'): on every path, a node stored into the by-name table childrenIndex on that path is the node returned on that path — only the returned node reaches the flat (slot, offset, type) index through saveKey -> addKey, so a path that indexes one object by name and returns another makes the two look-ups disagree; " +
-		"R11.4 who-may-write: the by-name table, the per-parent slot table, the flat index and the roots are written only by AddChild, addKey, saveKey and saveBalance."
+		"R11.4 who-may-write: the by-name table, the per-parent slot table, the flat index and the roots are written only by AddChild, addKey, saveKey and saveBalance; " +
+		"R11.5 write-once node tables: every update that stores a storage-key node into a table (roots, per-parent slot table, by-name table, flat index) is dominated by a test that found the entry absent, so a registered node is never replaced and changes journaled through it stay reachable by every look-up."
 	for _, name := range []string{"(*StateChanges).saveKey", "(*StateChanges).saveChange"} {
 		addValidateBeforeMutate(w, r, "R11.1", name)
 	}
@@ -36,6 +37,7 @@ func checkC11(w *World, tier string) *Report {
 		"P0.StorageKey.slot": {}, "P0.StorageKey.offset": {}, "P0.StorageKey.typeId": {}, "P0.StorageKey.data": {},
 	})
 	r.need("R11.4", 8)
+	addWriteOnceRule(w, r, "R11.5")
 	return r
 }
 
@@ -350,4 +352,117 @@ func valueKind(v ssa.Value) string {
 		return "const"
 	}
 	return fmt.Sprintf("%T", v)
+}
+
+// ---- R11.5 node tables are write-once ----------------------------------------------------------------
+
+// mapShape: a structural name for a map-valued / key-valued expression (recomputed look-ups of the same
+// path have the same shape).
+func mapShape(v ssa.Value, d int) string {
+	if d == 0 {
+		return "?"
+	}
+	switch x := v.(type) {
+	case *ssa.Parameter:
+		return "p:" + x.Name()
+	case *ssa.Const:
+		return "k:" + x.String()
+	case *ssa.Extract:
+		return mapShape(x.Tuple, d-1) + fmt.Sprintf("#%d", x.Index)
+	case *ssa.Lookup:
+		return "L(" + mapShape(x.X, d-1) + "," + mapShape(x.Index, d-1) + ")"
+	case *ssa.UnOp:
+		if x.Op == token.MUL {
+			return "*" + mapShape(x.X, d-1)
+		}
+	case *ssa.FieldAddr:
+		return mapShape(x.X, d-1) + "." + fieldID(x)
+	case *ssa.Call:
+		if c := x.Call.StaticCallee(); c != nil && len(x.Call.Args) == 1 {
+			return c.Name() + "(" + mapShape(x.Call.Args[0], d-1) + ")"
+		}
+	case *ssa.ChangeType:
+		return mapShape(x.X, d-1)
+	}
+	return "v:" + v.Name()
+}
+
+// addWriteOnceRule: every update of a table of *StorageKey nodes happens only where the entry was found
+// absent (comma-ok look-up reported !ok, or the looked-up node compared equal to nil): an entry, once
+// set, is never replaced — otherwise changes journaled through the replaced node are no longer reached
+// by the look-up that goes through this table.
+func addWriteOnceRule(w *World, r *Report, rule string) {
+	n := 0
+	for _, top := range w.Funcs(forkPath(pkVM)) {
+		for _, fn := range withAnon(top) {
+			ord := 0
+			for _, b := range fn.Blocks {
+				for _, ins := range b.Instrs {
+					mu, ok := ins.(*ssa.MapUpdate)
+					if !ok || typeBaseName(mu.Value.Type()) != "StorageKey" {
+						continue
+					}
+					if _, isPtr := mu.Value.Type().Underlying().(*types.Pointer); !isPtr {
+						continue
+					}
+					ord++
+					n++
+					key := fmt.Sprintf("%s/node-table-update#%d", relName(fn), ord)
+					want := "L(" + mapShape(mu.Map, 8) + "," + mapShape(mu.Key, 8) + ")"
+					guarded := false
+					for _, d := range fn.Blocks {
+						iff, ok := d.Instrs[len(d.Instrs)-1].(*ssa.If)
+						if !ok || d.Succs[0] == d.Succs[1] {
+							continue
+						}
+						absentSucc := -1
+						switch c := iff.Cond.(type) {
+						case *ssa.Extract:
+							// ok of a comma-ok look-up: absent on the false edge
+							if lk, isL := c.Tuple.(*ssa.Lookup); isL && lk.CommaOk && c.Index == 1 && mapShape(lk, 8) == want {
+								absentSucc = 1
+							}
+						case *ssa.UnOp:
+							if c.Op == token.NOT {
+								if ex, isE := c.X.(*ssa.Extract); isE {
+									if lk, isL := ex.Tuple.(*ssa.Lookup); isL && lk.CommaOk && ex.Index == 1 && mapShape(lk, 8) == want {
+										absentSucc = 0
+									}
+								}
+							}
+						case *ssa.BinOp:
+							if c.Op == token.EQL || c.Op == token.NEQ {
+								var other ssa.Value
+								if k, isK := c.Y.(*ssa.Const); isK && k.Value == nil {
+									other = c.X
+								} else if k, isK := c.X.(*ssa.Const); isK && k.Value == nil {
+									other = c.Y
+								}
+								if other != nil && mapShape(other, 8) == want {
+									absentSucc = 0
+									if c.Op == token.NEQ {
+										absentSucc = 1
+									}
+								}
+							}
+						}
+						if absentSucc < 0 {
+							continue
+						}
+						s := d.Succs[absentSucc]
+						if len(s.Preds) == 1 && (s == b || s.Dominates(b)) {
+							guarded = true
+						}
+					}
+					if guarded {
+						r.holds(rule, key, w.pos(mu.Pos()), "executed only where the entry was found absent")
+					} else {
+						r.violated(rule, key, w.pos(mu.Pos()), "a table of storage-key nodes is updated without a dominating test that the entry is absent: an existing node can be replaced, and what was journaled through it is then no longer reached through this table")
+					}
+				}
+			}
+		}
+	}
+	r.need(rule, 4)
+	_ = n
 }
